@@ -49,12 +49,12 @@ CLAIMED = {
  "C08": C("Session-lifecycle monitor (one Logout per session, no callback after it, nothing after close) on every cut point of 6 conversations, "
           "all server-initiated closes, sweeps and walks incl. TLS; closeConn/resetConn/protocolError proved to keep the ordering invariant.",
           "DESIGN.md 7 C08", CONV, "whole-loop theorem work in progress (see C03)"),
- "C09": C("AUTH reachability/at-most-once monitor on conversations over {plaintext, STARTTLS, implicit TLS} x AllowInsecureAuth x backend; "
-          "client half: Client.Auth against scripted peers, judged and compared with the Lean client model.",
-          "DESIGN.md 7 C09", CONV + "; cconv probe for the client", "one known finding (client sends '*' after a final negative reply); theorems pending"),
- "C10": C("Real in-process TLS upgrades with plaintext injected behind STARTTLS: injected commands never executed, capability lines consistent "
-          "with the TLS state, sessions after the upgrade see TLS; compared with the Lean model (fresh wire and state after STARTTLS).",
-          "DESIGN.md 7 C10", CONV, "client half (DialStartTLS/SendMail against misbehaving peers) not yet built; crypto/tls abstracted to success => fresh stream"),
+ "C09": C("Proved on the server model: C09_insecure_unreachable (when AUTH is not allowed neither the backend nor a mechanism is ever reached, nothing but the refusal is written), C09_b64_roundtrip (the decoder is the exact inverse of the encoder on all octet strings), C09_empty_initial_response. AUTH reachability/at-most-once monitor on conversations over {plaintext, STARTTLS, implicit TLS} x AllowInsecureAuth x backend incl. mechanisms that fail with done=true; client half: Client.Auth against scripted peers, judged (challenges and responses cross unaltered, '*' only while the server waits) and compared with the Lean client model.",
+          'DESIGN.md 0.3 + 7 C09', 'Lean 4 proof (server AUTH gate, base64) + trace monitors + differential correspondence (conv, cconv probes)',
+          "at-most-once and erased-by-STARTTLS are decided by the Order monitor + correspondence, not yet by a whole-loop theorem; one known finding (client sends '*' after a final negative reply)"),
+ "C10": C('Proved on the server model: C10_refused_unless_available, startTLS_success / C10_server_fresh (after a successful upgrade: no session, greeting name, authentication or envelope; the old session logged out; a fresh wire), C10_no_plaintext_in_tls (octets buffered behind STARTTLS are never read inside TLS). Implementation: real in-process TLS upgrades with commands (incl. EHLO preludes) injected behind STARTTLS; client half: NewClientStartTLS over net.Pipe and package-level SendMail over loopback TCP against a live scripted server {no STARTTLS, 454/501/421/EOF, 220 + injected replies, 220 then plaintext/alert/HTTP/silence, real handshake, inner EHLO refused}, judged (nothing but EHLO/HELO/STARTTLS/QUIT in plaintext, EHLO renegotiated, nothing succeeds without TLS) and compared with the Lean client model.',
+          'DESIGN.md 0.3 + 7 C10', 'Lean 4 proof (server upgrade) + monitors + differential correspondence (conv with real TLS, cstls probes)',
+          'crypto/tls is real in the probes and abstracted in the model (handshake succeeds iff the peer speaks TLS; the session is a fresh stream)'),
  "C11": C("Every short string over 16 syntactically significant symbols and mutations of valid paths, classified by an independent RFC 5321 "
           "reference grammar (valid => exact mailbox, invalid(class) => refused); parser entry points and parameter handling compared with the model.",
           "DESIGN.md 7 C11", "Lean 4 reference grammar as executable judge + differential correspondence (parse, conv probes)",
@@ -66,24 +66,24 @@ CLAIMED = {
  "C13": C("Attribution specification (k-th status of an address to its k-th occurrence, return value otherwise) as executable judge on LMTP "
           "conversations with duplicate recipients, status scripts, panics, DATA and BDAT, both backend kinds; compared with the model.",
           "DESIGN.md 7 C13", CONV, "theorem C13_attribution pending; out-of-contract status calls on the DATA path are schedule dependent and not generated"),
- "C14": C("All five codec functions compared with the Lean model on every Unicode scalar value (thorough) and short strings over the significant "
-          "alphabet; round-trip laws judged on the implementation's own encode/decode pairs.",
-          "DESIGN.md 7 C14", "Lean 4 executable codec model + differential correspondence (xtext, rt probes)", "round-trip theorems and the end-to-end probe pending"),
+ "C14": C("Proved: C14_xtext_roundtrip (decodeXtext (encodeXtext s) = s for every string over 7-bit ASCII) and C14_monitor_model. All five codec functions compared with the Lean model on every Unicode scalar value (thorough) and short strings over the significant alphabet; round-trip laws judged on the implementation's own encode/decode pairs; e2e probe: the real client talks to the real server and the options the backend observed are compared field by field with those given (every string option from the alphabet, option subsets, RRVS instants in several zones).",
+          'DESIGN.md 0.3 + 7 C14', 'Lean 4 proof (xtext) + executable codec model + law monitors + differential correspondence (xtext, rt, e2e probes)',
+          'utf-8-addr-xtext / unitext round trips are decided by exhaustive enumeration of scalar values against the model and the law monitor, not yet by a theorem'),
  "C15": C("Line discipline and negotiated-parameter monitor on the real client: extension subsets x option subsets, EHLO twice, HELO fallback, "
           "hostile strings in every string argument; compared with the Lean client model.",
           "DESIGN.md 7 C15", "Lean 4 client model + monitors + differential correspondence (cconv probe)", "theorems pending"),
- "C16": C("What the client's data writer puts on the wire is read back with the DATA specification (Spec.terminated?) and must be the normalised "
-          "body, for every body over {'.',LF,CRLF,'a'} and partitions; Close twice; compared with the dot-writer model.",
-          "DESIGN.md 7 C16", "Lean 4 dot-writer model + specification read-back + differential correspondence (cconv probe)", "C16_roundtrip theorem pending"),
+ "C16": C('Proved: C16_wire_terminated and C16_roundtrip (for every body with CR only in CRLF, in ANY partition into Write calls and for ANY backend read sizes, dot-writer composed with the DATA reader delivers exactly the body with bare LF -> CRLF and a final CRLF ensured, and the command stream resumes behind the marker), C16_partition_independent, C16_roundtrip_progress, C16_second_close. Implementation: what the client writes is read back with the DATA specification; e2e probe real client -> real server (token bodies, 500-9000-octet bodies around buffer boundaries, partitions, verdicts, stale writer handles).',
+          'DESIGN.md 0.3 + 7 C16', 'Lean 4 proof (dot writer o DATA reader) + specification read-back + differential correspondence (cconv, e2e probes)',
+          "textproto.dotWriter and bufio.Writer are modelled (tied by the cconv correspondence); 'Close returns the server's verdict' is decided by the e2e judge"),
  "C17": C("Server rendering (writeError / dataErrorToStatus / writeResponse) composed with client parsing (textproto.ReadResponse + toSMTPErr) on "
           "codes x enhanced-code modes x message shapes x call sites, judged by the normalisation law and compared with the model.",
           "DESIGN.md 7 C17", "Lean 4 render/parse model + law monitor + differential correspondence (rt, reply, tosmtperr probes)", "C17_roundtrip theorem pending"),
  "C18": C("LMTP client transactions (1-3 per connection, refused recipients, verdict vectors, with/without callback) judged (callbacks are the "
           "current transaction's recipients) and compared with the Lean client model.",
           "DESIGN.md 7 C18", "Lean 4 client model + monitor + differential correspondence (cconv probe)", "theorem pending"),
- "C19": C("Hostile input without scripted panics: line lengths around the limit at every split, endless lines, all short byte strings, random "
-          "binary, error-threshold mixes: no recovered panic, long lines (and prefixes) never reach the backend, short lines never refused.",
-          "DESIGN.md 7 C19", CONV, "theorems pending; buffered-input bound is a property of the modelled bufio, not observed"),
+ "C19": C('Proved on the wire model: C19_short_lines_ok, C19_long_line_trips (the limiter latches once a line exceeds the limit), C19_long_line_refused (no prefix of an over-long line is executed). Implementation: line lengths around the limit at every split, endless lines, all short byte strings, every short string over quote/backslash/<>@ as MAIL/RCPT/AUTH=/ORCPT= argument, random binary, error-threshold mixes: no recovered panic, long lines never reach the backend, short lines never refused, three errors end the connection.',
+          'DESIGN.md 0.3 + 7 C19', 'Lean 4 proof (line limiter) + monitors + differential correspondence (conv probe)',
+          'the error-threshold rule is decided by monitor + correspondence; the bound on buffered input is a property of the modelled bufio, not observed'),
  "C20": C("PARTIAL. Proved: C20_second_close, C20_temp_errors (Serve survives any run of temporary errors, delays <= 1 s) on the lifecycle model; "
           "own_verdict_all_schedules and never_blocked_step on the chunked-delivery interleaving model for every schedule; pinned-tree "
           "counterexamples kept as regression witnesses. accept probe over outcome sequences, sched probe over forced delivery/Close/Shutdown orders "
@@ -93,14 +93,14 @@ CLAIMED = {
 }
 # properties whose check audits at least one machine-checked theorem today (the others are claimed at the level of
 # their correspondence/monitor check until their theorems land)
-PROVED = {"C01", "C02", "C04", "C06", "C07", "C12", "C20"}
+PROVED = {"C01", "C02", "C04", "C06", "C07", "C09", "C10", "C12", "C14", "C16", "C19", "C20"}
 NA_REASON = "check not built yet (work in progress, see DESIGN.md section 10)"
 
 m = {"version": 1, "setup_cmd": "./setup.sh",
      "hooks": {"guard": "verif",
                "enable": "go build -tags verif (the harness module replaces github.com/emersion/go-smtp by /repo)",
                "baseline_off_cmd": "cd /repo && GOFLAGS=-mod=mod GOPROXY=off GOSUMDB=off go test -count=1 ./...",
-               "source_commits": ["222df5c", "0a94ce4"], "add_only": True},
+               "source_commits": ["222df5c", "0a94ce4", "43344c1"], "add_only": True},
      "engines": [{"name": "smtpv-lean", "path": "lean/", "serves_properties": sorted(CLAIMED),
                   "kind_free_text": "Lean 4 model, specs, theorems and compiled line-protocol driver"},
                  {"name": "vharness", "path": "harness/", "serves_properties": sorted(CLAIMED),
